@@ -6,6 +6,7 @@ pops and pushes (inside inner loops: per iteration, with the trip count's origin
 class and which values reach which callee in which argument position."""
 from mirlib import *
 from rules.tables import OPCODE, _memo, variant_name
+from rules.shared import deref
 
 FETCH = {'vm::VM::read_u8': 1, 'vm::VM::read_u16': 2}
 POP = 'vm::VM::pop'
@@ -245,6 +246,40 @@ BULK = {'::resize': 'push', '::split_off': 'pop', '::drain': 'pop', '::truncate'
 def bulk_effect(F, p, c):
     """('push'|'pop', amount) for a bulk Vec operation on self.stack, 'unknown' when its amount cannot be read, None otherwise"""
     n = c[1]
+    if ('Extend' in n or n.endswith('::extend')) and 'Vec' in n and len(c[2]) >= 2 and _stack_ref(F, p, c[2][0]):
+        # `stack.extend(repeat(v).take(k))` / `extend(repeat_n(v, k))`: k copies are pushed
+        it = uncast(deref(p.env, c[2][1]))
+        if it[0] == 'call' and it[1].endswith('::take') and len(it[2]) == 2:
+            src = uncast(deref(p.env, it[2][0]))
+            if src[0] == 'call' and (src[1].endswith('iter::repeat') or src[1].endswith('sources::repeat::repeat') or 'repeat' in src[1].split('::')[-1]):
+                return ('push', it[2][1])
+        if it[0] == 'call' and it[1].split('::')[-1] == 'repeat_n' and len(it[2]) == 2:
+            return ('push', it[2][1])
+        return 'unknown'
+    if (n.endswith('::collect') or n.endswith('::from_iter') or n.endswith('::for_each') or n.endswith('::count') or n.endswith('::last')) and c[2]:
+        # `(0..k).map(|_| self.pop()).collect()`: the closure runs once per element of the range - k pops (or pushes)
+        it = uncast(deref(p.env, c[2][0]))
+        clo = None
+        if n.endswith('::for_each') and len(c[2]) == 2:
+            clo = uncast(deref(p.env, c[2][1]))
+            src = it
+        elif it[0] == 'call' and it[1].endswith('::map') and len(it[2]) == 2:
+            clo = uncast(deref(p.env, it[2][1]))
+            src = uncast(deref(p.env, it[2][0]))
+        if clo is not None and clo[0] == 'closure' and clo[1] in F.fns:
+            g = F.fns[clo[1]]
+            npop = sum(1 for b_, t_ in g.calls() if callee_name(t_) == POP)
+            npush = sum(1 for b_, t_ in g.calls() if callee_name(t_) == PUSH)
+            if npop or npush:
+                if g.natural_loops() or (npop and npush) or npop + npush != 1:
+                    return 'unknown'
+                for _ in range(3):
+                    if src[0] == 'call' and src[1].endswith(('::into_iter', '::rev')) and src[2]:
+                        src = uncast(deref(p.env, src[2][0]))
+                if src[0] == 'agg' and str(src[1]).endswith('ops::range::Range') and len(src[3]) == 2 and int_of(src[3][0]) == 0:
+                    return ('pop' if npop else 'push', src[3][1])
+                return 'unknown'
+        return None
     kind = next((k for sfx, k in BULK.items() if n.endswith(sfx) and 'Vec' in n), None)
     if kind is None or not c[2] or not _stack_ref(F, p, c[2][0]) or len(c[2]) < 2:
         return None
